@@ -217,23 +217,25 @@ def pretty_timedelta(delta, ctx):
         years, days = divmod(days, 365)
         if years:
             _docs = []
+            # An argument of the call, like the other keyword values.
+            nested_ctx = ctx.nested_call()
 
             if years > 1:
                 _docs.extend([
-                    pretty_python_value(years, ctx),
+                    pretty_python_value(years, nested_ctx),
                     ' ',
                     MUL_OP,
                     ' '
                 ])
 
-            _docs.append(pretty_python_value(365, ctx))
+            _docs.append(pretty_python_value(365, nested_ctx))
 
             if days:
                 _docs.extend([
                     ' ',
                     ADD_OP,
                     ' ',
-                    pretty_python_value(days, ctx)
+                    pretty_python_value(days, nested_ctx)
                 ])
 
             kwargdocs[0] = ('days', concat(_docs))
